@@ -1,4 +1,6 @@
 import SaphyrVerif.Spec.Interp
+import SaphyrVerif.Lemmas.C04
+import SaphyrVerif.Lemmas.C04_Capture
 /-!
 # C04 — duplicate-key policy is applied exactly, for keys of every YAML kind
 
@@ -8,6 +10,7 @@ refinement theorem of C05 shows the map access to deliver).
 -/
 namespace SaphyrVerif.Props.C04
 open SaphyrVerif SaphyrVerif.Scalars SaphyrVerif.Pump SaphyrVerif.De SaphyrVerif.Spec
+open SaphyrVerif.Lemmas
 
 mutual
 /-- forget presentation: anchors, locations, styles, raw tag text — keep structure, scalar text, tag class -/
@@ -25,14 +28,32 @@ end
 
 /-- (T) the executable fingerprint comparison is equality of fingerprints -/
 theorem fp_beq_iff (a b : FP) : FP.beq a b = true ↔ a = b := by
-  sorry
+  exact C04.beq_iff a b
+
+mutual
+theorem erase_eq_unfp : ∀ t : ENode, erasePresentation t = C04.unfp (fpOf t)
+  | .scalar .. => by simp [erasePresentation, C04.unfp, fpOf]
+  | .seq _ _ _ _ _ items => by simp [erasePresentation, C04.unfp, fpOf, eraseL_eq_unfpL items]
+  | .map _ _ _ es => by simp [erasePresentation, C04.unfp, fpOf, eraseE_eq_unfpE es]
+theorem eraseL_eq_unfpL : ∀ ts : List ENode, erasePresentationL ts = C04.unfpL (fpOfL ts)
+  | [] => by simp [erasePresentationL, C04.unfpL, fpOfL]
+  | t :: ts => by simp [erasePresentationL, C04.unfpL, fpOfL, erase_eq_unfp t, eraseL_eq_unfpL ts]
+theorem eraseE_eq_unfpE : ∀ es : List (ENode × ENode), erasePresentationE es = C04.unfpE (fpOfE es)
+  | [] => by simp [erasePresentationE, C04.unfpE, fpOfE]
+  | (k, v) :: es => by
+    simp [erasePresentationE, C04.unfpE, fpOfE, erase_eq_unfp k, erase_eq_unfp v, eraseE_eq_unfpE es]
+end
 
 /-- (T) fingerprint_eq_iff: two key nodes have equal fingerprints exactly when they have the same
 structure, scalar text and tag class (style, anchors, locations, raw tag spelling are ignored; the
 sequence tag class is not part of the identity). -/
 theorem fingerprint_eq_iff (a b : ENode) :
     fpOf a = fpOf b ↔ erasePresentation a = erasePresentation b := by
-  sorry
+  constructor
+  · intro h; rw [erase_eq_unfp, erase_eq_unfp, h]
+  · intro h
+    have := congrArg fpOf h
+    rwa [erase_eq_unfp, erase_eq_unfp, C04.fpOf_unfp, C04.fpOf_unfp] at this
 
 /-- (T) capture_node_exact: on `pre ++ eflatten t ++ rest` the key capture consumes exactly the events of
 `t`, returns them verbatim together with the fingerprint of `t` and its start location. -/
@@ -40,14 +61,16 @@ theorem capture_node_exact (t : ENode) (pre rest : List Ev) (ref : Option Loc) :
     ∃ n, ∀ fuel, n ≤ fuel →
       capture fuel (.replay (pre ++ eflatten t ++ rest) pre.length ref) =
         .ok ⟨fpOf t, eflatten t, t.loc⟩ (.replay (pre ++ eflatten t ++ rest) (pre.length + (eflatten t).length) ref) := by
-  sorry
+  refine ⟨(eflatten t).length, fun fuel hf => ?_⟩
+  exact C04.capture_exact_drop t ref (Cursor.drop_length_append_append pre (eflatten t) rest) hf
 
 /-- (T) skip_one_node_exact: FirstWins discards exactly the value node of a repeated key -/
 theorem skip_one_node_exact (t : ENode) (pre rest : List Ev) (ref : Option Loc) :
     ∃ n, ∀ fuel, n ≤ fuel →
       skipOneNode fuel (.replay (pre ++ eflatten t ++ rest) pre.length ref) =
         .ok () (.replay (pre ++ eflatten t ++ rest) (pre.length + (eflatten t).length) ref) := by
-  sorry
+  refine ⟨(eflatten t).length + 1, fun fuel hf => ?_⟩
+  exact C04.skipOneNode_exact_drop t ref (Cursor.drop_length_append_append pre (eflatten t) rest) hf
 
 /-- keys of an entry list -/
 def keyFps (es : List (ENode × ENode)) : List FP := es.map fun p => fpOf p.1
@@ -55,16 +78,16 @@ def keyFps (es : List (ENode × ENode)) : List FP := es.map fun p => fpOf p.1
 /-- (T) nodup_policy_irrelevant: without repeated keys all three policies keep every entry in order -/
 theorem nodup_policy_irrelevant (p : DupPolicy) (own : List (ENode × ENode)) (h : (keyFps own).Nodup) :
     applyPolicy p own [] = some own := by
-  sorry
+  exact C04.applyPolicy_nodup p own [] h (by simp)
 
 /-- (T) error_policy_first_repeat: the Error policy fails exactly when some key repeats -/
 theorem error_policy_iff (own : List (ENode × ENode)) :
     applyPolicy .error own [] = none ↔ ¬ (keyFps own).Nodup := by
-  sorry
+  simpa [keyFps] using C04.applyPolicy_error_none_iff own []
 
 /-- (T) last_wins_delivers_all_in_order -/
 theorem last_wins_delivers_all (own : List (ENode × ENode)) : applyPolicy .lastWins own [] = some own := by
-  sorry
+  exact C04.applyPolicy_lastWins own []
 
 /-- (T) first_wins_is_delete_later: FirstWins returns the entry list with every later entry for an
 already-seen key deleted: a sublist of the original, without repeated keys, containing the first entry
@@ -73,12 +96,19 @@ theorem first_wins_is_delete_later (own : List (ENode × ENode)) :
     ∃ r, applyPolicy .firstWins own [] = some r ∧ r.Sublist own ∧ (keyFps r).Nodup ∧
       (∀ e ∈ own, ∃ e' ∈ r, fpOf e'.1 = fpOf e.1) ∧
       (∀ p, applyPolicy p r [] = some r) := by
-  sorry
+  obtain ⟨r, h1, h2⟩ := C04.applyPolicy_firstWins own []
+  have hnd := (C04.applyPolicy_nodup_of_ne_lastWins .firstWins (by decide) own [] r h1).1
+  refine ⟨r, h1, C04.applyPolicy_sublist _ own [] r h1, hnd, fun e he => ?_, fun p => ?_⟩
+  · rcases h2 e he with h | h
+    · cases h
+    · exact h
+  · exact C04.applyPolicy_nodup p r [] hnd (by simp)
 
 /-- first occurrence of each key is the one kept -/
 theorem first_wins_keeps_first (k v : ENode) (rest : List (ENode × ENode)) :
     ∃ r, applyPolicy .firstWins ((k, v) :: rest) [] = some ((k, v) :: r) := by
-  sorry
+  obtain ⟨r, h1, _⟩ := C04.applyPolicy_firstWins rest [fpOf k]
+  exact ⟨r, by simp [applyPolicy, h1]⟩
 
 -- (E) non-vacuity: a sequence key, a mapping key and a quoted/plain pair collide as stated
 def kSeq (st : Style) (l : Loc) : ENode := .seq 0 0 none l l [.scalar ['a'] 0 none st 0 l]
@@ -88,5 +118,15 @@ example : (applyPolicy .firstWins [(kSeq .plain 1, .scalar ['1'] 0 none .plain 0
   decide
 example : fpOf (.scalar ['a'] 0 none .plain 0 1) = fpOf (.scalar ['a'] 0 none .double 7 9) := rfl
 example : (fpOf (.scalar ['a'] 0 none .plain 0 1) == fpOf (.scalar ['a'] 9 (some ['!','!','s','t','r']) .plain 0 1)) = false := by decide
+
+#print axioms fp_beq_iff
+#print axioms fingerprint_eq_iff
+#print axioms capture_node_exact
+#print axioms skip_one_node_exact
+#print axioms nodup_policy_irrelevant
+#print axioms error_policy_iff
+#print axioms last_wins_delivers_all
+#print axioms first_wins_is_delete_later
+#print axioms first_wins_keeps_first
 
 end SaphyrVerif.Props.C04
